@@ -881,6 +881,28 @@ def generate(ctx):
         if sum(1 for k, _ in spec if k == "ellipsis") > 1:
             continue
         yield "normidx", {"shape": shape, "index": spec}
+    # (2d) scale: axes longer than 255 / 65535 (index dtypes chosen with np.min_scalar_type) and more than 10 blocks
+    for n, nb in [(300, 3), (257, 2), (600, 13)] + ([(70000, 2)] if thorough or rng.random() < 0.5 else []):
+        base = n // nb
+        lengths = [base] * (nb - 1) + [n - base * (nb - 1)]
+        k = rng.choice([n, n + 3, 40])
+        idx = [rng.randrange(-n, n) for _ in range(k)]
+        if rng.random() < 0.5:
+            idx[0], idx[-1] = n - 1, 0          # touch both ends
+        yield "take", {"chunks": [lengths], "axis": 0, "index": idx}
+        yield "take", {"chunks": [lengths], "axis": 0, "index": sorted(i % n for i in idx)}
+    for _ in range(ctx.n(6, 60)):
+        nb = rng.randint(11, 16)
+        lengths = [rng.choice([1, 2, 3]) for _ in range(nb)]
+        n = sum(lengths)
+        v = [None] + list(range(-n - 2, n + 3))
+        yield "api1d", {"lengths": lengths, "s": [rng.choice(v), rng.choice(v), rng.choice([None, 1, 2, 3, -1, -2, -3])]}
+        yield "apind", {"shape": [n, 2], "chunks": [lengths, [2]],
+                        "index": [(rng.choice(["list", "dalist"]), [rng.randrange(-n, n) for _ in range(rng.randint(1, n))])]}
+    for n, c in [(600, 300), (520, 260)]:
+        pts = [rng.randrange(-n, n) for _ in range(rng.choice([5, 300]))]
+        yield "vindex", {"shape": [n, 2], "chunks": [[c, n - c], [1, 1]], "index": [("array", pts), ("slice", [None, None, None])],
+                         "ashapes": [[len(pts)]]}
     # (3) API level, one axis
     for n in range(0, 7):
         for lengths in compositions(n):
